@@ -1155,7 +1155,9 @@ class Serializable(object):
             fmt_func = self._get_formatter(attribute)
             base_tag_name = self._tag_override.get(attribute, attribute)
             if attribute in self._set_as_attribute:
-                xml_ns_key = self._child_xml_ns_key.get(attribute, ns_key)
+                # NB: from_node reads an attribute unqualified unless _child_xml_ns_key names a namespace
+                # for it; the element namespace key must not be inherited here either
+                xml_ns_key = self._child_xml_ns_key.get(attribute, None)
                 serialize_attribute(nod, base_tag_name, value, fmt_func, xml_ns_key)
             else:
                 # should we be using some namespace?
